@@ -320,6 +320,17 @@ def harness(name, kind):
         elif name == "H5":
             bodies = [lambda: _bits(m.rate(g0, limit_sigma=True)), lambda: _bits(m.rate(g1, tau=0)),
                       lambda: _bits(m.predict_rank(g2))]
+        elif name == "H9":  # a REJECTED call in one thread (exception swallowed by the caller), a valid call in the other
+            def rejected():
+                out = []
+                for bad in (lambda: m.rate(g0, ranks=[1]), lambda: m.rate(g0, ranks=[0, 1], scores=[1, 0]), lambda: m.predict_win([g0[0]])):
+                    try:
+                        bad()
+                        out.append("returned")
+                    except (TypeError, ValueError) as e:
+                        out.append(type(e).__name__)
+                return out
+            bodies = [rejected, lambda: _bits(m.rate(g1, limit_sigma=True))]
         elif name == "H8":  # ties in BOTH threads (both go through vt/wt and the tie bookkeeping at the same time)
             bodies = [lambda: _bits(m.rate(g0, ranks=[1, 1])), lambda: _bits(m.rate(g1, scores=[0, 0]))]
         elif name == "H7":  # predictors against predictors (scratch data of the pairwise loops)
@@ -334,7 +345,7 @@ def harness(name, kind):
     return mk
 
 
-HARNESSES = ["H1", "H2", "H3", "H4", "H5", "H6", "H7", "H8"]
+HARNESSES = ["H1", "H2", "H3", "H4", "H5", "H6", "H7", "H8", "H9"]
 
 
 def solo(mk):
